@@ -35,11 +35,11 @@ def pathStarDot1 (win : Bool) : Re := .cat (noDir win) (pathStar win)
 def pathStarDot2 (win : Bool) : Re :=
   .cat (noDir win) (.opt (.grp (.cat (.look true (.lit '.')) (pathStar win))))
 
-/-- `_PATH_GSTAR_DOTMATCH` : `(?:(?!(?:[/]|^)(?:\.{1,2})($|[/])).)*?` -/
+/-- `_PATH_GSTAR_DOTMATCH` : `(?:(?!(?:[/]|^)(?:\.{1,2})(?:$|[/])).)*?` -/
 def pathGstarDot1 (win : Bool) : Re :=
   .star true (.grp (.cat
     (.look true (.cat (.cat (.grp (.alt (sep win) .bos)) (.grp (.rep 1 2 (.lit '.'))))
-                      (.gcap (.alt .eos (sep win)))))
+                      (pathEop win)))
     .any))
 /-- `_PATH_GSTAR_NO_DOTMATCH` : `(?:(?!(?:[/]|^)\.).)*?` -/
 def pathGstarDot2 (win : Bool) : Re :=
